@@ -158,6 +158,10 @@ type FResult = Result<(), Fail>;
 /// Oracles that only observe (they do not feed the reference model): when one of them fires for a
 /// property other than the one being checked it is recorded, muted for the rest of the case, and
 /// the case continues.
+/// Set by the interpreter-tier binary: histories run with the per-step oracles switched off (the
+/// interpreter the binary runs under is the oracle).
+pub static LIGHT: std::sync::atomic::AtomicBool = std::sync::atomic::AtomicBool::new(false);
+
 pub const OBSERVERS: [&str; 13] = [
     "dropped-on-exit", "ledger", "allocator", "resolve", "resolve-same-entity", "audit", "audit-twin", "exactly-once", "exactly-once-count", "fresh-value", "value-shared", "len", "lockstep-snapshot",
 ];
@@ -197,7 +201,7 @@ impl<R: Reg> Interp<R> {
             muted: HashSet::new(),
             foreign: Vec::new(),
             mute: true,
-            checks: true,
+            checks: !LIGHT.load(std::sync::atomic::Ordering::Relaxed),
             structural_at: None,
             known_prev: HashSet::new(),
         };
@@ -1351,7 +1355,30 @@ impl<R: Reg> Interp<R> {
     // global oracles, run after every step
     // ------------------------------------------------------------------------------------------
 
+    /// With the per-step oracles off (interpreter tier, fault enumeration) the bookkeeping the
+    /// oracles rely on is not kept; an explicit check then only reads every value of every world,
+    /// which must be live.
+    fn check_light(&mut self) -> FResult {
+        let step = self.step;
+        for w in 0..NSLOTS {
+            let Some(s) = self.slots[w].as_mut() else { continue };
+            for row in R::snapshot(&mut s.real) {
+                for (c, o) in row.comps.iter().enumerate() {
+                    if let Some(o) = o {
+                        if !o.ok {
+                            return Err(Fail { props: &["C05", "C04"], oracle: "value-valid", msg: format!("world {w}: entity {:?} component {c}: payload {} serial {:#x} is not a live value", row.id, o.payload, o.serial), step });
+                        }
+                    }
+                }
+            }
+        }
+        Ok(())
+    }
+
     pub fn check_all(&mut self) -> FResult {
+        if !self.checks {
+            return self.check_light();
+        }
         let step = self.step;
         // (1) ledger errors: double drops, drops of unknown / reinterpreted values
         let errs = ledger::take_errors();
